@@ -28,7 +28,7 @@ struct Op {
     std::function<void(World&, const WSnap&, CallInfo&)> apply;   // fills CallInfo, then performs the call (may throw)
 };
 
-struct Limits { size_t maxFrames = 3, maxPoints = 3, maxChans = 2, maxGroups = 6, maxParamsPerGroup = 12; bool noColumnsOnGaps = false; bool emptyFrameOnlyWhenBlank = false; bool documentedDevsOnly = false; bool noDuplicateDeclarations = false; bool noRateEditWithData = false; };
+struct Limits { size_t maxFrames = 3, maxPoints = 3, maxChans = 2, maxGroups = 6, maxParamsPerGroup = 12; bool noColumnsOnGaps = false; bool emptyFrameOnlyWhenBlank = false; bool documentedDevsOnly = false; bool noDuplicateDeclarations = false; bool noRateEditWithData = false; bool integerRateRatioOnly = false; };
 inline bool hasGap(const WSnap& s) { for (auto& f : s.o.frames) if (f.empty()) return true; return false; }
 
 inline Param mkRate(float v) { Param p("RATE"); p.set(std::vector<float>() = {v}); return p; }
@@ -97,6 +97,10 @@ inline Op opRate(const char* grp, float v, const Limits& L = Limits()) {
     std::string g = grp;
     o.enabled = [g, v, L](const World& w, const WSnap& s) {
         if (L.noRateEditWithData && (!s.o.frames.empty() || w.Rset[0] || w.Rset[1])) return false;   // a rate edit would make stored / prepared frames disagree with the new ratio
+        if (L.integerRateRatioOnly) {   // C3D: the analog rate is an integer multiple (>= 1) of the point rate; a caller who sets another ratio made the object inconsistent himself
+            float pr = g == "POINT" ? v : pFloat(s.o, "POINT", "RATE"), ar = g == "ANALOG" ? v : pFloat(s.o, "ANALOG", "RATE");
+            if (pr != 0.0f && ar != 0.0f) { float q = ar / pr; if (q < 1.0f || q != (float)(long)q) return false; }
+        }
         return fbits(pFloat(s.o, g.c_str(), "RATE", -12345.f)) != fbits(v); };
     o.apply = [g, v](World& w, const WSnap&, CallInfo& ci) {
         ci.kind = K_PARAM; ci.group = g; Param p = mkRate(v); ci.givenParam = snapParam(p); w.c->parameter(g, p);
